@@ -75,7 +75,7 @@ def _shard(ctx, name, seed, nper, keep):
     """One shard: harness -> ndjson -> TLC.  Returns dict."""
     path = ctx.path(name + ".ndjson")
     t0 = time.time()
-    r = vlib.run_harness("vinteract", ["samples", path, seed, nper, "all", 200000, 20], timeout=1500, check=False)
+    r = vlib.run_harness("vinteract", ["samples", path, seed, nper, "all", 200000, 60], timeout=1500, check=False)
     th = time.time() - t0
     res = {"name": name, "path": path, "seed": seed, "nper": nper, "harness_s": th, "crash": None,
            "rejected": None, "summary": None, "close": {}, "tlc_s": 0.0}
@@ -86,7 +86,7 @@ def _shard(ctx, name, seed, nper, keep):
             seed, nper, r.returncode, (r.stderr or "")[-1500:])
         return res
     t1 = time.time()
-    ok, tr = vlib.validate_trace("InteractTrace", "InteractTrace", path, timeout=3000, heap="6g")
+    ok, tr = vlib.validate_trace("InteractTrace", "InteractTrace", path, timeout=3000, heap="4g")
     res["tlc_s"] = time.time() - t1
     res["summary"] = _summary(tr.out)
     if not ok:
@@ -96,7 +96,14 @@ def _shard(ctx, name, seed, nper, keep):
     res["close"] = _close_record(path)
     # keep the evidence of anything reported; drop the (large) trace otherwise
     s = res["summary"] or {}
-    res["keep"] = bool(keep or res["rejected"] or s.get("viol") or s.get("dev"))
+    res["recs"] = {}
+    with open(path) as fh:
+        res["config"] = fh.readline().strip()
+    for d in s.get("dev", []):
+        res["recs"][("dev", d["name"])] = _record(path, d["k"])
+    for v in s.get("viol", []):
+        res["recs"][("viol", v["clause"], v["var"])] = _record(path, v["k"])
+    res["keep"] = bool(keep or res["rejected"] or s.get("viol"))
     return res
 
 
@@ -154,6 +161,9 @@ def run(ctx):
         if not ok or s.get("viol"):
             ctx.violation("replay %s: %s" % (ctx.replay, vlib.rejected_info(tr) if not ok else s.get("viol")),
                           tags={"trace": "replay"}, files=[ctx.replay])
+        for d in s.get("dev", []):
+            ctx.violation("replay %s: %s (%d samples)" % (ctx.replay, d["name"], d["n"]),
+                          tags={"deviation": d["name"]}, files=[ctx.replay])
         ctx.coverage.update({"evaluations": (s.get("stat") or {}).get("samples", 1), "distinct_nontrivial": 2,
                              "rule": "replay of one recorded trace", "samples": [ctx.replay]})
         return
@@ -247,11 +257,15 @@ def run(ctx):
         if key in seen:
             continue
         seen.add(key)
-        rec = _record(res["path"], v["k"])
+        rec = res["recs"].get(("viol", v["clause"], v["var"]))
         small = ctx.path("viol_%s_%s.json" % (v["clause"].replace(".", "_"), re.sub(r"\W", "_", v["var"])))
         with open(small, "w") as fh:
             json.dump({"clause": v["clause"], "variant": v["var"], "sample": v["k"], "harness":
                        "vinteract samples <out> %d %d all" % (res["seed"], res["nper"]), "record": rec}, fh, indent=1)
+        mini = small.replace(".json", ".ndjson")      # bin/check C04 --replay <this file>
+        with open(mini, "w") as fh:
+            fh.write(res["config"] + "\n" + json.dumps(rec, separators=(",", ":")) + "\n"
+                     + json.dumps({"e": "Close", "n": 1}) + "\n")
         x = (rec or {}).get("x", {})
         ctx.violation("%s violated by %s: sample %d of `vinteract samples out %d %d all`; incident %s E=%s MeV dir=%s "
                       "inputs=%s -> act=%s E_out=%s dep=%s secondaries=%s draws=%s stack=%s"
@@ -259,21 +273,25 @@ def run(ctx):
                          x.get("E"), x.get("dir"), json.dumps(x.get("info")), (rec or {}).get("act"), x.get("Eout"),
                          x.get("dep"), [(s["pt"], e) for s, e in zip((rec or {}).get("secs", []), x.get("secE", []))],
                          (rec or {}).get("draws"), json.dumps((rec or {}).get("al"))),
-                      tags={"clause": v["clause"], "variant": v["var"]}, files=[small])
+                      tags={"clause": v["clause"], "variant": v["var"]}, files=[small, mini])
     for name, e in sorted(devs.items()):
         res, k = e["first"]
-        rec = _record(res["path"], k)
+        rec = res["recs"].get(("dev", name))
         small = ctx.path("dev_%s.json" % name)
         with open(small, "w") as fh:
             json.dump({"deviation": name, "hits": e["n"], "first_sample": k, "harness":
                        "vinteract samples <out> %d %d all" % (res["seed"], res["nper"]), "record": rec}, fh, indent=1)
+        mini = small.replace(".json", ".ndjson")
+        with open(mini, "w") as fh:
+            fh.write(res["config"] + "\n" + json.dumps(rec, separators=(",", ":")) + "\n"
+                     + json.dumps({"e": "Close", "n": 1}) + "\n")
         x = (rec or {}).get("x", {})
         ctx.violation("%s: %d samples (%s); first: sample %d of `vinteract samples out %d %d all`, %s incident %s "
                       "E=%s MeV inputs=%s -> E_out=%s secondaries=%s draws=%s"
                       % (name, e["n"], DEVIATIONS.get(name, ""), k, res["seed"], res["nper"], (rec or {}).get("var"),
                          (rec or {}).get("inc", {}).get("pt"), x.get("E"), json.dumps(x.get("info")), x.get("Eout"),
                          x.get("secE"), (rec or {}).get("draws")),
-                      tags={"deviation": name}, files=[small])
+                      tags={"deviation": name}, files=[small, mini])
 
     nsamp = tot.get("samples", 0)
     if nsamp == 0 and not ctx.violations:
